@@ -41,6 +41,16 @@
       [spec_targets]: the list (spec_offset address, new blob) of the targeted entries;
       [disjoint_regions]: those byte ranges are pairwise disjoint.
 
+    - [bg_state], [step], [run], [final], [segs_of], [se_count], [writes_se] (section 6): one
+      BootGuard object across calls: the segment list of every SE element and the digest
+      list of SE[0]; the image is an argument of every call.  Section 6 states that
+      CreateIBBSegments replaces (never extends) the list, that a sequence of calls leaves the
+      list of the last CreateIBBSegments, what each call may change, and that digest,
+      generation chain and validator on an object with any history speak about the image the
+      call is given.  That the CODE keeps no other state between calls (caches keyed by buffer
+      identity, length, file name) is sampled by the harness's sequences on one object, one
+      reused buffer and one reused file (harness/cmd/c19/seq.go), not proved.
+
     No clause is partial or refuted any more: the three defects this property had found
     (KNOWN_FINDINGS.json, "fixed") are repaired in the code and the theorems that excluded or
     refuted them are now the full statements:
